@@ -459,6 +459,12 @@ def check(eng, res):
     res.doc("R-SAG-STATIC", "one static edge per bond with that bond's order")
     res.doc("R-SAG-COMPAT", "every non-static edge: compatible endpoints, their order, exactly one weight with the right provenance; list alignment; all pairs considered")
     res.doc("R-SAG-ENDGROUP", "no non-static edge leaves an end group (sibling rule over the three edge families)")
+    # every edge builder adds its own offset to a descriptor's token-local atom index: nobody may have shifted that index before
+    # (shared with C04's R-INDEX-WRITERS: only the parser and the attachment shift of MolGen copies write it)
+    from . import c04 as _c04
+
+    res.doc("R-INDEX-WRITERS", "a descriptor's atom index is written by the parser and the attachment shift only — the graph builders read the token-local index (shared with C04)")
+    _c04.index_writers(eng, res)
     sag_nodes(eng, res)
     sag_offsets(eng, res)
     sag_static(eng, res)
